@@ -10,6 +10,9 @@
 #include "vfh.h"
 #include <algorithm>
 #include <numeric>
+#include <atomic>
+#include <thread>
+#include <votca/tools/graph_df_visitor.h>
 #include <csignal>
 #include <votca/csg/beadstructure.h>
 #include <votca/csg/beadstructurealgorithms.h>
@@ -753,6 +756,188 @@ static void judge_reuse(Ctx &C, const RG &g0, const Labelling &L0) {
   }
 }
 
+// ------------------------------------------------------------------ explorations in progress at the same time
+// (i) interleaved: several visitors on their own graphs (sharing vertex numbers) are advanced alternately through
+//     the public stepping API; (ii) concurrent: threads with private objects. Reference: the same work done alone.
+static std::string dist_string(Graph &G, const std::vector<Index> &ids) {
+  std::ostringstream o;
+  for (Index id : ids) {
+    GraphNode gn = G.getNode(id);
+    o << id << ":";
+    try { o << gn.getInt("Dist"); } catch (std::invalid_argument &) { o << "-"; }
+    o << ",";
+  }
+  return o.str();
+}
+static std::string set_string(const std::set<Index> &s) {
+  std::ostringstream o;
+  for (Index v : s) o << v << ",";
+  return o.str();
+}
+struct Stepper {
+  int kind;  // 0 dist, 1 bf, 2 df
+  Graph G;
+  GraphDistVisitor vd;
+  Graph_BF_Visitor vb;
+  Graph_DF_Visitor vf_;
+  GraphVisitor &v() { return kind == 0 ? (GraphVisitor &)vd : kind == 1 ? (GraphVisitor &)vb : (GraphVisitor &)vf_; }
+  void start(Index s) { v().setStartingVertex(s); v().initialize(G); }
+  bool done() { return v().queEmpty(); }
+  void step() { Edge e = v().nextEdge(G); v().exec(G, e); }
+  std::string result(const std::vector<Index> &ids) { return (kind == 0 ? dist_string(G, ids) : std::string()) + "|" + set_string(v().getExploredVertices()); }
+};
+static const char *KIND[] = {"dist", "bf", "df"};
+static void run_interleaved(vfh::Rng &rng, vfh::Reporter &R, long n) {
+  for (long it = 0; it < n; ++it) {
+    int k = (int)rng.range(2, 3);
+    std::vector<RG> gs;
+    std::vector<Labelling> Ls;
+    std::vector<int> kinds, starts;
+    std::string desc;
+    for (int q = 0; q < k; ++q) {
+      RG g;
+      if (it % 4 == 0) { add_chain(g, 4 + (int)rng.range(0, 4)); g.cls = "chain"; g.norm(); }
+      else g = gen_class(rng, rng.range(0, 13));
+      gen_attrs(g, rng);
+      gs.push_back(g);
+      Ls.push_back(natural(g));  // the graphs share their vertex numbers on purpose
+      kinds.push_back(rng.coin(0.6) ? 0 : (int)rng.range(1, 2));
+      int st = (it % 4 == 0) ? (q % 2 ? g.n - 1 : 0) : (int)rng.range(0, g.n - 1);
+      starts.push_back(st);
+      desc += std::string(KIND[kinds[q]]) + " on " + g.str() + " from " + std::to_string(st) + "; ";
+    }
+    try {
+      // one after another
+      std::vector<std::string> ref(k), got(k);
+      for (int q = 0; q < k; ++q) {
+        Stepper S;
+        S.kind = kinds[q];
+        S.G = build(gs[q], Ls[q]).getGraph();
+        S.start(Ls[q].id[starts[q]]);
+        while (!S.done()) S.step();
+        ref[q] = S.result(Ls[q].id);
+        if (kinds[q] == 0) {  // and the reference BFS
+          std::vector<int> d = gs[q].bfs(starts[q]);
+          std::ostringstream o;
+          for (int i = 0; i < gs[q].n; ++i) { o << i << ":"; if (d[i] >= 0) o << d[i]; else o << "-"; o << ","; }
+          if (ref[q].substr(0, ref[q].find('|')) != o.str()) R.violation("dist/not-shortest-path", "stepped exploration (run alone) differs from the reference BFS", J().s("explorations", desc).s("got", ref[q]).s("bfs", o.str()));
+        }
+      }
+      // interleaved
+      std::vector<std::unique_ptr<Stepper>> S;
+      for (int q = 0; q < k; ++q) {
+        S.emplace_back(new Stepper);
+        S[q]->kind = kinds[q];
+        S[q]->G = build(gs[q], Ls[q]).getGraph();
+      }
+      std::string schedule;
+      bool init_first = rng.coin();
+      if (init_first) for (int q = 0; q < k; ++q) S[q]->start(Ls[q].id[starts[q]]);
+      std::vector<char> started(k, init_first ? 1 : 0);
+      long guard = 0;
+      for (;;) {
+        std::vector<int> live;
+        for (int q = 0; q < k; ++q) if (!started[q] || !S[q]->done()) live.push_back(q);
+        if (live.empty() || ++guard > 100000) break;
+        int q = live[rng.next() % live.size()];
+        if (!started[q]) { S[q]->start(Ls[q].id[starts[q]]); started[q] = 1; schedule += "i"; }
+        else { S[q]->step(); }
+        if (schedule.size() < 400) schedule += char('0' + q);
+      }
+      for (int q = 0; q < k; ++q) {
+        got[q] = S[q]->result(Ls[q].id);
+        R.eval(std::string("interleaved_") + KIND[kinds[q]]);
+        if (got[q] != ref[q])
+          R.violation(std::string("interleaved/") + KIND[kinds[q]] + "/differs-from-sequential", "an exploration advanced alternately with others gives another result than the same exploration run alone",
+                      J().s("explorations", desc).i("which", q).s("schedule_first400", schedule).s("interleaved", got[q]).s("alone", ref[q]));
+      }
+      R.nontrivial(vfh::hstr(vfh::hstr(61, desc), schedule));
+      if (R.want_sample() && it % 40 == 1) R.sample(J().s("explorations", desc).s("schedule_first400", schedule).s("result_0", got[0]));
+    } catch (std::exception &e) {
+      R.violation("exception/interleaved", std::string("library threw: ") + e.what(), J().s("explorations", desc));
+    }
+  }
+}
+
+static const char *OPN[] = {"explore-dist", "structure-id", "is-structure-equivalent", "reduce-expand", "decouple"};
+struct Task { RG g; Labelling L, L2; int op; int start; };
+static std::string run_task(const Task &t) {
+  try {
+    if (t.op == 2) {
+      BeadStructure A = build(t.g, t.L), B = build(t.g, t.L2);
+      return std::string(A.isStructureEquivalent(B) ? "1" : "0") + (B.isStructureEquivalent(A) ? "1" : "0");
+    }
+    Graph G = build(t.g, t.L).getGraph();
+    if (t.op == 0) {
+      GraphDistVisitor gv;
+      gv.setStartingVertex(t.L.id[t.start]);
+      exploreGraph(G, gv);
+      return dist_string(G, t.L.id);
+    }
+    if (t.op == 1) return findStructureId<GraphDistVisitor>(G);
+    if (t.op == 3) {
+      Graph X = reduceGraph(G).expandGraph();
+      bool dup = false;
+      ESet e = eset(X.getEdges(), dup);
+      std::ostringstream o;
+      for (auto &p : e) o << p.first << "-" << p.second << ",";
+      o << (dup ? "dup" : "") << "|" << X.getVertices().size();
+      return o.str();
+    }
+    std::vector<Graph> subs = decoupleIsolatedSubGraphs(G);
+    std::set<std::string> parts;
+    for (auto &sg : subs) { std::vector<Index> v = sg.getVertices(); parts.insert(set_string(std::set<Index>(v.begin(), v.end()))); }
+    std::string o;
+    for (auto &p : parts) o += p + ";";
+    return o;
+  } catch (std::exception &e) {
+    return std::string("EXCEPTION: ") + e.what();
+  }
+}
+static void run_concurrent(vfh::Rng &rng, vfh::Reporter &R, int T, long rounds, long tasks_per_thread) {
+  for (long round = 0; round < rounds; ++round) {
+    std::vector<std::vector<Task>> tasks(T);
+    std::vector<std::vector<std::string>> serial(T), conc(T);
+    for (int th = 0; th < T; ++th)
+      for (long q = 0; q < tasks_per_thread; ++q) {
+        Task t;
+        if (q % 3 == 0) { add_chain(t.g, 4 + (int)rng.range(0, 5)); t.g.cls = "chain"; t.g.norm(); }
+        else t.g = gen_class(rng, rng.range(0, 13));
+        gen_attrs(t.g, rng);
+        t.L = natural(t.g);          // shared vertex numbers 0..n-1 across all threads
+        t.L2 = relabel(t.g, rng);
+        t.op = (int)rng.range(0, 4);
+        t.start = (q % 3 == 0) ? (th % 2 ? t.g.n - 1 : 0) : (int)rng.range(0, t.g.n - 1);
+        tasks[th].push_back(t);
+      }
+    for (int th = 0; th < T; ++th) for (auto &t : tasks[th]) serial[th].push_back(run_task(t));
+    std::atomic<int> ready{0};
+    std::atomic<bool> go{false};
+    std::vector<std::thread> thr;
+    for (int th = 0; th < T; ++th)
+      thr.emplace_back([&, th]() {
+        ready.fetch_add(1);
+        while (!go.load()) {}
+        for (auto &t : tasks[th]) conc[th].push_back(run_task(t));
+      });
+    while (ready.load() < T) {}
+    go.store(true);
+    for (auto &t : thr) t.join();
+    for (int th = 0; th < T; ++th)
+      for (size_t q = 0; q < tasks[th].size(); ++q) {
+        const Task &t = tasks[th][q];
+        R.eval(std::string("concurrent_") + OPN[t.op]);
+        if (t.op == 2 && serial[th][q] != "11") R.violation("equiv/relabelled-structure-not-equivalent", "serial: a structure and its relabelled copy are reported as different", witness(t.g, t.L2));
+        if (conc[th][q] != serial[th][q])
+          R.violation(std::string("concurrent/") + OPN[t.op] + "/differs-from-serial", "an operation on thread-private objects gives another result when other threads work on their own objects at the same time",
+                      witness(t.g, t.L).i("threads", T).i("thread", th).i("start", t.start).s("concurrent", conc[th][q].substr(0, 600)).s("serial", serial[th][q].substr(0, 600)));
+        R.nontrivial(vfh::hstr(vfh::hmix(vfh::hmix(71, (uint64_t)t.op), (uint64_t)t.start), t.g.str()));
+      }
+    R.counter("concurrent_rounds");
+    R.counter_max("concurrent_max_threads", T);
+  }
+}
+
 int main(int argc, char **argv) {
   vfh::Args A(argc, argv);
   long seed = A.num("seed", 1), shard = A.num("shard", 0), nshards = A.num("shards", 16);
@@ -768,6 +953,8 @@ int main(int argc, char **argv) {
   sa.sa_flags = SA_RESETHAND;
   sigaction(SIGABRT, &sa, nullptr);
 
+  if (A.str("part", "main") == "inter") { run_interleaved(rng, R, A.num("n", 200)); R.summary(); return 0; }
+  if (A.str("part", "main") == "conc") { run_concurrent(rng, R, (int)A.num("threads", 4), A.num("rounds", 10), A.num("n", 12)); R.summary(); return 0; }
   // replay of one graph given as "n:u-v,u-v,..." (the reference_edges field of a witness)
   if (A.has("graph")) {
     RG g;
